@@ -502,3 +502,44 @@ Proof.
   pose proof (iso_path_obs _ _ _ _ Hiso [(0, 2)]) as H.
   vm_compute in E. inversion E; subst. vm_compute in H. discriminate.
 Qed.
+
+(* ---------------------------------------------------------------- several roots, one shared state per direction, through the database:
+   the roots (elements of the holder's single collection field; the holder is not persisted) are converted with ONE ToDAOState,
+   flushed, read back in a fresh session and converted with ONE explicitly created FromDAOState.  Executable companion for the
+   correspondence; the shared FromDAOState is covered by C04_state_reuse_safe for two roots. *)
+Definition reload_multi (S : schema) (alts : list (Z * Z)) (ab : list Z) (l : lheap) (h : addr)
+  : option (heap * addr * nat * bool * st) :=
+  match heap_of l h with
+  | Some (mkObj c sc [(t, rs)]) =>
+      match walk_list (walk (P_todao idc alts) (heap_of l) (Datatypes.S (length l))) rs st0 with
+      | Some (ds, s1) =>
+          let L := load S (flush S (dst s1) (nxt s1) (pk_id 1)) in
+          match walk_list (walk (P_fromdao idc alts ab) L (Datatypes.S (nxt s1))) ds st0 with
+          | Some (bs, s2) => Some (upd (dst s2) (nxt s2) (mkObj c sc [(t, bs)]), nxt s2, Datatypes.S (nxt s2), bad s2, s1)
+          | None => None
+          end
+      | None => None
+      end
+  | _ => None
+  end.
+
+Definition case_code5_multi (S : schema) (alts : list (Z * Z)) (ab : list Z) (tables tags : list Z) (l : lheap) (h : addr)
+  (l' : lheap) (h' : addr) (counts : sx) : sx :=
+  match reload_multi S alts ab l h with
+  | None => SL [SZ 3%Z; SZ (-1)%Z; SZ 0%Z; SZ 0%Z]
+  | Some (hp, r, n, b, s1) =>
+      let D := flush S (dst s1) (nxt s1) (pk_id 1) in
+      let mc := SL [SL (map (fun t => SZ (Z.of_nat (count_z t (map (fun x : key * Z * list Z => snd (fst x)) (t_rows D))))) tables);
+                    SL (map (fun t => SZ (Z.of_nat (count_z t (map (fun x : key * Z * key => snd (fst x)) (t_assoc D))))) tags)] in
+      SL [SZ (classify (spec_canon l' h') (sx_canon (canon hp n r)) (spec_canon l h));
+          SZ ((if alts_ok alts l && negb b then 1 else 0) + (if wf_dao S (dst s1) (nxt s1) then 2 else 0)
+              + (if F05 S (dst s1) (nxt s1) then 4 else 0))%Z;
+          SZ (if wf_heap l h && wf_heap l' h' then 1 else 0)%Z;
+          SZ (if sx_eqb counts mc then 1 else 0)%Z]
+  end.
+
+Example reload_multi_example :
+  let S := mkSchema [] [(1%Z, 1); (2%Z, 0)] [(1%Z, [3%Z]); (2%Z, [])] [] in
+  let l := [(0, mkObj 1 [7%Z] [(3%Z, [1; 1])]); (1, mkObj 2 [] []); (2, mkObj 1 [8%Z] [(3%Z, [1])]); (3, mkObj 99 [] [(0%Z, [0; 2; 0])])] in
+  case_code5_multi S [] [] [1; 2]%Z [3%Z] l 3 l 3 (SL [SL [SZ 2; SZ 1]; SL [SZ 3]])%Z = SL [SZ 1; SZ 3; SZ 1; SZ 1]%Z.
+Proof. vm_compute. reflexivity. Qed.
